@@ -108,16 +108,16 @@ theorem run_sched {s : St} (hc : s.npc = .sched) (hp : 0 < s.pending) :
     ∃ s', machine.run s [.nRun] = some s' ∧ s'.ran = s.ran + 1 := by
   simp [Machine.run, machine, step, hc, hp]
 
-theorem run_root {s : St} (hc : s.npc = .root) (hr : s.rootq = true) (hp : 0 < s.pending) :
-    ∃ s', machine.run s [.nRoot, .nRun] = some s' ∧ s'.ran = s.ran + 1 := by
-  simp [Machine.run, machine, step, hc, hr, hp]
+theorem run_root {s : St} (hc : s.npc = .root) (hr : s.rootq = true) (hq : s.creq = false) (hp : 0 < s.pending) :
+    ∃ s', machine.run s [.nRoot false, .nRun] = some s' ∧ s'.ran = s.ran + 1 := by
+  simp [Machine.run, machine, step, hc, hr, hq, hp]
 
 theorem run_restart {s : St} {e : XsCtx.Ev} {c' : Ctl} {eff : Eff}
     (he : e = XsCtx.Ev.tau .T ∨ e = .relock .T ∨ e = .unlock .T) (hs : cstep s.x e = some (c', eff))
-    (hrr : restartEv s.x e = true) (hr : s.rootq = true) (hp : 0 < s.pending) :
-    ∃ s', machine.run s [.ctx e, .nRoot, .nRun] = some s' ∧ s'.ran = s.ran + 1 := by
+    (hrr : restartEv s.x e = true) (hr : s.rootq = true) (hq : s.creq = false) (hp : 0 < s.pending) :
+    ∃ s', machine.run s [.ctx e, .nRoot false, .nRun] = some s' ∧ s'.ran = s.ran + 1 := by
   have hg := glue_T (s := s) he
-  simp [Machine.run, machine, step, hg.1, hs, ctxGlue, gNpc, hrr, hr, hp]
+  simp [Machine.run, machine, step, hg.1, hs, ctxGlue, gNpc, hrr, hr, hq, hp]
 
 theorem run_cons {s s1 s' : St} {e : Ev} {tr : List Ev} (h1 : step s e = some s1) (h2 : machine.run s1 tr = some s') :
     machine.run s (e :: tr) = some s' := by
@@ -134,16 +134,16 @@ theorem native_runs_unit : ∀ (n : Nat) (s : St), Inv s → s.cause = false →
   induction n with
   | zero =>
     intro s hi hq hl hp hd
-    obtain ⟨_, _, _, _, _, _, hc⟩ := quiet_facts hi hq hl
+    obtain ⟨_, _, _, hcq, _, _, hc⟩ := quiet_facts hi hq hl
     rcases hc with hc | ⟨hc, hr⟩ | ⟨hc, hn, hi2, hr⟩
     · obtain ⟨s', h1, h2⟩ := run_sched hc hp
       exact ⟨[.nRun], s', by simp [isNative], h1, h2⟩
-    · obtain ⟨s', h1, h2⟩ := run_root hc hr hp
-      exact ⟨[.nRoot, .nRun], s', by simp [isNative], h1, h2⟩
+    · obtain ⟨s', h1, h2⟩ := run_root hc hr hcq hp
+      exact ⟨[.nRoot false, .nRun], s', by simp [isNative], h1, h2⟩
     · obtain ⟨e, c', eff, he, hs, _, hrr⟩ := prog_of hi.reach hn hi2
       rcases hrr with hrr | ⟨_, _, hlt⟩
-      · obtain ⟨s', h1, h2⟩ := run_restart he hs hrr hr hp
-        refine ⟨[.ctx e, .nRoot, .nRun], s', ?_, h1, h2⟩
+      · obtain ⟨s', h1, h2⟩ := run_restart he hs hrr hr hcq hp
+        refine ⟨[.ctx e, .nRoot false, .nRun], s', ?_, h1, h2⟩
         intro x hx
         simp only [List.mem_cons, List.not_mem_nil, or_false] at hx
         rcases hx with hx | hx | hx <;> subst hx
@@ -153,17 +153,17 @@ theorem native_runs_unit : ∀ (n : Nat) (s : St), Inv s → s.cause = false →
       · omega
   | succ n ih =>
     intro s hi hq hl hp hd
-    obtain ⟨_, _, _, _, _, _, hc⟩ := quiet_facts hi hq hl
+    obtain ⟨_, _, _, hcq, _, _, hc⟩ := quiet_facts hi hq hl
     rcases hc with hc | ⟨hc, hr⟩ | ⟨hc, hn, hi2, hr⟩
     · obtain ⟨s', h1, h2⟩ := run_sched hc hp
       exact ⟨[.nRun], s', by simp [isNative], h1, h2⟩
-    · obtain ⟨s', h1, h2⟩ := run_root hc hr hp
-      exact ⟨[.nRoot, .nRun], s', by simp [isNative], h1, h2⟩
+    · obtain ⟨s', h1, h2⟩ := run_root hc hr hcq hp
+      exact ⟨[.nRoot false, .nRun], s', by simp [isNative], h1, h2⟩
     · obtain ⟨e, c', eff, he, hs, hci, hrr⟩ := prog_of hi.reach hn hi2
       have hg := glue_T (s := s) he
       rcases hrr with hrr | ⟨hrr, hn', hlt⟩
-      · obtain ⟨s', h1, h2⟩ := run_restart he hs hrr hr hp
-        refine ⟨[.ctx e, .nRoot, .nRun], s', ?_, h1, h2⟩
+      · obtain ⟨s', h1, h2⟩ := run_restart he hs hrr hr hcq hp
+        refine ⟨[.ctx e, .nRoot false, .nRun], s', ?_, h1, h2⟩
         intro x hx
         simp only [List.mem_cons, List.not_mem_nil, or_false] at hx
         rcases hx with hx | hx | hx <;> subst hx
